@@ -1182,6 +1182,39 @@ fn gen_coll(r: &mut Rng, gc: &Gc, depth: usize, tower: bool) -> IG {
 pub fn gen_case(r: &mut Rng) -> (IG, Lat, bool) {
     let lat = Lat::random(r);
     let raw_tri = r.chance(1, 4);
+    // one case in 150: components of realistic length (a count just beyond a power of two, or 130-700 coordinates) whose
+    // extreme coordinates sit anywhere, the very last one included: a line string, a ring as shell / hole / member, a
+    // MultiPoint, alone or as member of a collection after shorter members
+    if r.chance(1, 150) {
+        let n = crate::gen::long_count(r);
+        let walk = |r: &mut Rng, n: usize| -> Vec<IP> {
+            let mut p = (0i64, 0i64);
+            let peak = r.below(n as u64 + 1) as usize;
+            (0..n)
+                .map(|i| {
+                    p = (p.0 + r.range(-3, 3), p.1 + r.range(-3, 3));
+                    // one coordinate (often the last, or in the tail) sticks out of everything else
+                    if i == peak.min(n - 1) || (i + 1 == n && r.chance(1, 2)) {
+                        (p.0 + *r.pick(&[-5000i64, 5000]), p.1 + *r.pick(&[-7000i64, 7000]))
+                    } else {
+                        p
+                    }
+                })
+                .collect()
+        };
+        let ig = match r.below(6) {
+            0 => IG::LineString(walk(r, n)),
+            1 => IG::MultiPoint(walk(r, n)),
+            2 => IG::Polygon(vec![crate::gen::long_ring(r, n)]),
+            3 => {
+                let ring = crate::gen::long_ring(r, n);
+                IG::Polygon(vec![vec![(-9000, -9000), (9000, -9000), (9000, 9000), (-9000, 9000), (-9000, -9000)], ring])
+            }
+            4 => IG::MultiLineString(vec![vec![(0, 0), (1, 1)], walk(r, n), vec![(2, 2), (3, 5), (4, 4)]]),
+            _ => IG::Collection(vec![IG::Point((1, 2)), IG::LineString(walk(r, n)), IG::MultiPoint(walk(r, 20))]),
+        };
+        return (ig, lat, raw_tri);
+    }
     for _ in 0..6 {
         let g = *r.pick(&[2i64, 3, 4, 6, 12, 1000]);
         let gc = if r.chance(1, 3) { Gc { lo: -g, hi: g } } else { Gc { lo: 0, hi: g } };
